@@ -65,7 +65,8 @@ def rule_no_serial_clobber(rep: Report, rule: str, root: Fn) -> int:
                 if not (isinstance(st, ast.Assign) and isinstance(st.targets[0], ast.Attribute) and st.targets[0].attr == "disposable"
                         and u(st.targets[0].value) == name):
                     continue
-                calls = [c for c in ast.walk(st.value) if is_subscribe_call(c)]
+                from ..model import is_schedule_call as _isched
+                calls = [c for c in ast.walk(st.value) if is_subscribe_call(c) or _isched(c)]
                 for c in calls:
                     n += 1
                     bad = None
@@ -76,10 +77,14 @@ def rule_no_serial_clobber(rep: Report, rule: str, root: Fn) -> int:
                             for x in k.direct_nodes():
                                 if isinstance(x, ast.Assign) and isinstance(x.targets[0], ast.Attribute) and x.targets[0].attr == "disposable" \
                                         and u(x.targets[0].value) == name:
+                                    # a scheduled step that re-arms itself through the same serial is fine: when it ran inline every nested
+                                    # step has finished before the outer store; what must not be replaced is a SUBSCRIPTION the step installed
+                                    if not is_subscribe_call(c) and any(_isched(y) for y in ast.walk(x.value)):
+                                        continue
                                     bad = (h, k, x)
                     rep.ob(rule, g, f"{root.qual}: `{short(st, 60)}` is not overwritten from its own callbacks", bad is None,
                            "" if bad is None else
-                           f"`{short(st, 70)}` stores the subscription only after `.subscribe(...)` returns, but the callback "
+                           f"`{short(st, 70)}` stores the handle only after the call returns, but the callback / scheduled action "
                            f"`{bad[0].name}` passed to it runs `{short(bad[2], 60)}` (in {bad[1].qual}). When the subscribed "
                            f"sequence calls back synchronously, the continuation installed by the callback is replaced -- and "
                            f"disposed -- by the outer assignment: the output is cut and never terminates")
